@@ -267,7 +267,15 @@ func replaySeq(v *Violation) int {
 		return 2
 	}
 	fmt.Println("case:", strings.Join(v.Ops, " ; "))
-	cl, det := j.Replay(v.Ops)
+	var cl, det string
+	done := make(chan struct{})
+	go func() { cl, det = j.Replay(v.Ops); close(done) }()
+	select {
+	case <-done:
+	case <-time.After(seqHangLimit):
+		fmt.Printf("VIOLATION property=%s clause=%q\nthe case did not return within %v\n", v.Property, "hang", seqHangLimit)
+		return 1
+	}
 	if cl == "" {
 		fmt.Println("replay: no violation on this tree")
 		return 0
